@@ -1,0 +1,12 @@
+//go:build !verif
+// +build !verif
+
+package php7
+
+import "github.com/z7zmey/php-parser/pkg/token"
+
+// verifState and verifLex are placeholders for the runtime-verification hooks
+// that are compiled in with the "verif" build tag only (see verif_on.go).
+type verifState struct{}
+
+func (p *Parser) verifLex(t *token.Token) {}
